@@ -639,10 +639,10 @@ func (w *world) dump(p *printer, n *node, withCheck bool) (string, []coin.UxOut,
 	if withCheck {
 		dbOK = checkDB(n, w.pub)
 	}
-	fmt.Fprintf(&dg, "c %v\n", dbOK)
+	fmt.Fprintf(&dg, "c %v %v\n", dbOK, indep == xh)
 	d := sha256.Sum256([]byte(dg.String()))
 	term := fmt.Sprintf("mkDump %s %d %s %s %d %s %s %s %d", Z(head.Head.BkSeq), w.id(head.HashHeader()), Z(head.Head.Time), Z(low64(xh)),
-		w.id(storedHash), B(storedSigOK), B(dbOK && indep == xh), List(items), w.digestID(hex.EncodeToString(d[:])))
+		w.id(storedHash), B(storedSigOK), B(dbOK), List(items), w.digestID(hex.EncodeToString(d[:])))
 	return p.def("d", "dump", term), uxs, nil
 }
 
